@@ -143,6 +143,7 @@ func runC11(ctx *h.Ctx) int {
 		}
 		k.Count("cli_runs_equal", 1)
 	})
+	rejectGuard(ctx, 0.05)
 	return ctx.Finish(
 		"conditions and switches whose leaves / operand are AutoVar commands (config generated per program: fixed var name or argument position), mixed with ordinary leaves at every position; complete truth tables per expression, every skeleton up to 3 leaves, the six switch contexts, and full programs with loops under states that change after every command. Oracle: VM trace == reference trace on commands (full rendering per the command rule), tests (operand var = configured var / argument at configured position) and terminal, so the AutoVar command runs once per evaluation of its leaf in short-circuit order, not when short-circuited, again per iteration; no command between compare and jump (VM condition-register rule). A sample is also compiled through the CLI with the config in a JSON file. distinct = condition/program signature",
 		ctx.N(500, 5000),
